@@ -76,7 +76,18 @@ def c15 (v : StepView) : Verdict :=
 
 def c10 (v : StepView) : Verdict :=
   match optNat v.step "fault" with
-  | none => fine ["no-fault"]
+  | none =>
+    -- success means the effect is there: after a successful mkdirs the directories exist
+    if cmdOf v.step == "mkdirs" && clsOf v == "ok" && !getBool v.step "pretend" && (optNat v.step "crash").isNone then
+      let n := argOf v.step 0
+      match findD (diskLayers v.post) n with
+      | some l =>
+        let need := [buildDir v.post n] ++ (if l.file.base.isEmpty then [] else [workDir v.post n, upperDir v.post n])
+        if l.file.nmsgs == 0 && need.any (fun p => !Fs.isDir v.post.fs p) then
+          bad "mkdirs reported success but a needed directory does not exist"
+        else fine ["no-fault:mkdirs-ok"]
+      | none => fine ["no-fault"]
+    else fine ["no-fault"]
   | some k =>
     if getNat v.postJ "nops" ≥ k then
       if clsOf v == "ok" then bad s!"operation {k} failed but the command reported success"
@@ -517,11 +528,76 @@ def layerconfigs (tree : Json) : List (Bytes × Bytes) :=
     | Json.arr a => if pathBase (hexAt a 0) == b!"layerconfig" && strAt a 1 == "f" then some (hexAt a 0, hexAt a 2) else none
     | _ => none
 
+/-- An undisturbed, successful rewriting command (`add`, `rename`, `rebase`): every layerconfig
+    that loaded without error re-reads with the same imports and exports in the same order and
+    with the same parent, apart from the intended change of the parent's name.  Judged with the
+    proved reader (`Layerfile.readLayerFile`) on the implementation's own bytes before and after. -/
+def c11Rewrite (v : StepView) : Verdict :=
+  let cmd := cmdOf v.step
+  if !(clsOf v == "ok" && plain v && (cmd == "rebase" || cmd == "rename" || cmd == "add")) then fine [] else
+  let pre := layerconfigs v.preTreeJ
+  let post := layerconfigs (getObj v.postJ "tree")
+  let nameOf (p : Bytes) : Bytes := pathBase (pathDir p)
+  let a0 := argOf v.step 0
+  let a1 := argOf v.step 1
+  -- the layer a post-state file continues, and the parent name it should now carry
+  let origin (n : Bytes) : Bytes := if cmd == "rename" && n == a1 then a0 else n
+  let wantBase (n : Bytes) (old : Bytes) : Bytes :=
+    if cmd == "rebase" && n == a0 then a1
+    else if cmd == "rename" && old == a0 then a1
+    else old
+  let verdicts := post.filterMap fun (p, c) =>
+    let n := nameOf p
+    -- `<name>~removed` directories are not layers: layercake neither reads nor rewrites them
+    if n.contains 126 then none else
+    match pre.find? (fun (q, _) => nameOf q == origin n && pathDir (pathDir q) == pathDir (pathDir p)) with
+    | none => none          -- a layer new in this step (add): judged below
+    | some (_, c0) =>
+      let l0 := Layerfile.readLayerFile c0
+      let l1 := Layerfile.readLayerFile c
+      if l0.nmsgs > 0 then none else
+      if l1.nmsgs > 0 then some ("after " ++ cmd ++ " " ++ showB p ++ " no longer loads cleanly")
+      else if l1.mounts != l0.mounts then some ("after " ++ cmd ++ " the imports of " ++ showB p ++ " changed")
+      else if l1.exports != l0.exports then some ("after " ++ cmd ++ " the exports of " ++ showB p ++ " changed")
+      else if l1.base != wantBase n l0.base then some ("after " ++ cmd ++ " the parent in " ++ showB p ++ " is not the intended one")
+      else none
+  -- add: the new layer carries its parent's (or the skeleton's) mounts and the requested parent
+  let added :=
+    if cmd != "add" then none else
+    match post.find? (fun (p, _) => nameOf p == a0 && !(pre.any (·.1 == p))) with
+    | none => some "add reported success but the new layer has no layerconfig"
+    | some (p, c) =>
+      let l1 := Layerfile.readLayerFile c
+      let src : Option Layerfile.LayerFile :=
+        if (argOf v.step 2).length > 0 then none       -- explicit skeleton file: resolved by the model only
+        else if a1.length > 0 then
+          (pre.find? (fun (q, _) => nameOf q == a1 && pathDir (pathDir q) == pathDir (pathDir p))).map
+            (fun (_, c0) => Layerfile.readLayerFile c0)
+        else none
+      match src with
+      | none => if l1.nmsgs > 0 then some ("the layerconfig written by add does not load cleanly") else
+                if l1.base != a1 then some "the layerconfig written by add names another parent" else none
+      | some l0 =>
+        if l0.nmsgs > 0 then none
+        else if l1.nmsgs > 0 then some ("the layerconfig written by add does not load cleanly")
+        else if l1.mounts != l0.mounts || l1.exports != l0.exports then some "add did not carry over the parent's imports and exports"
+        else if l1.base != a1 then some "the layerconfig written by add names another parent"
+        else none
+  match verdicts.head?, added with
+  | some w, _ => bad w
+  | none, some w => bad w
+  | none, none => fine ["c11:rewrite-ok:" ++ cmd]
+
 /-- `expectPost`: the layerconfig contents the same step produces when it is not
     interrupted (computed by the model from the implementation's own pre-state) -/
 def c11 (v : StepView) (expectPost : List (Bytes × Bytes)) : Verdict :=
-  match optNat v.step "crash" with
-  | none => fine []
+  -- a command cut short by a crash, or failing on an injected I/O fault
+  let cut := match optNat v.step "crash", optNat v.step "fault" with
+    | some k, _ => some k
+    | none, some k => some k
+    | none, none => none
+  match cut with
+  | none => c11Rewrite v
   | some _ =>
     let pre := layerconfigs v.preTreeJ
     let post := layerconfigs (getObj v.postJ "tree")
@@ -534,6 +610,8 @@ def c11 (v : StepView) (expectPost : List (Bytes × Bytes)) : Verdict :=
       let lostDirs := pre.filter fun (p, _) =>
         Fs.isDir v.post.fs (pathDir p) && !(post.any (·.1 == p))
       if !lostDirs.isEmpty then bad "after a crash a layer directory has no layerconfig any more"
-      else fine [(if clsOf v == "crash" then "c11:crashed:" ++ cmdOf v.step else "c11:crash-not-reached")]
+      else fine [(if clsOf v == "crash" then "c11:crashed:" ++ cmdOf v.step
+                  else if clsOf v == "err" && (optNat v.step "fault").isSome then "c11:faulted:" ++ cmdOf v.step
+                  else "c11:cut-not-reached")]
 
 end Lc.Driver.Oracle
